@@ -892,7 +892,13 @@ pub fn recording_op(profile: Profile) -> BoxedStrategy<Op> {
         3 => Just(Op::NewSheet),
         2 => sheet_sel().prop_map(Op::DeleteSheet),
         2 => sheet_sel().prop_map(Op::DuplicateSheet),
-        2 => (sheet_sel(), sheet_name()).prop_map(|(s, n)| Op::RenameSheet(s, n)),
+        2 => (sheet_sel(), sheet_name())
+            .prop_map(move |(s, n)| {
+                // listed finding: a sheet whose name differs only in case from the way formulas
+                // and defined names spell it confuses later renames
+                let n = if !full && n == "sheet1" { "Summary".to_string() } else { n };
+                Op::RenameSheet(s, n)
+            }),
         2 => (sheet_sel(), sheet_sel()).prop_map(|(s, t)| Op::MoveSheet(s, t)),
         1 => sheet_sel().prop_map(Op::HideSheet),
         1 => sheet_sel().prop_map(Op::UnhideSheet),
